@@ -113,7 +113,10 @@ def run_sched(seed, task, out, only=None):
         for name, p in plans:
             if only is not None and name != only:
                 continue
-            ref, files, outp = cvcase.materialise(case, p['layout'], wd, 'x')
+            try:
+                ref, files, outp = cvcase.materialise(case, p['layout'], wd, 'x')
+            except cvcase.LayoutFailure:
+                continue
             cfg = dict(case['config'], threads=p['threads'])
             run = cvrun.run_callvariant(ref, files, outp, cfg, p['sched'])
             if p['threads'] > 1 and run.ok:
@@ -232,7 +235,11 @@ def run_oneshot(seed, task, out, only=None):
         flag_sets.append((cmd, flags))
     with cvcase.Scratch('c04o_') as wd:
         lay = dict(cvcase.reference_layout(case), index_dir=use_index)
-        ref, files, _ = cvcase.materialise(case, lay, wd, 'x')
+        try:
+            ref, files, _ = cvcase.materialise(case, lay, wd, 'x')
+        except cvcase.LayoutFailure:
+            out['invalid'] = True
+            return case
         for cmd, flags in flag_sets:
             if only is not None and cmd != only:
                 continue
